@@ -28,20 +28,25 @@ def operandOk (e : TyEnv) (x : ExprResult) : Bool :=
     | some t => x.ty == t
     | none => true            -- an unwritten register is C08's subject
 
+/-- the value record carried by a read / field read / assignment is the record of the latest
+declaration of its internal name (with C12 — internal names are unique — simply "of its declaration") -/
+def TyEnv.declOk (e : TyEnv) (v : Value) : Bool :=
+  (e.decls.find? fun d => d.innerName == v.innerName) == some v
+
 def typedStep (funcs : List (Name × Func)) (consts : List (Name × ConstSem)) (resTy : Ty)
     (exts : List (Nat × PrimTy)) (e : TyEnv) (i : Instr) (pos : Nat) : TyEnv × List String :=
   let bad (c : Bool) (msg : String) : List String := if c then [] else [s!"pos{pos}:{msg}"]
   match i with
   | .fnArg v _ => ({ e with decls := v :: e.decls }, [])
   | .exprValue v r =>
-    ({ e with regs := (r, v.ty) :: e.regs }, bad (e.decls.contains v) "read-differs-from-declaration")
+    ({ e with regs := (r, v.ty) :: e.regs }, bad (e.declOk v) "read-differs-from-declaration")
   | .exprConst c r =>
     ({ e with regs := (r, c.ty) :: e.regs }, bad (assocGet c.name consts == some c) "constant-differs-from-global-table")
   | .exprStructValue v idx r =>
     match v.ty with
     | .struct _ attrs =>
       match attrs.byIndex idx with
-      | some t => ({ e with regs := (r + 1, t) :: (r, t) :: e.regs }, bad (e.decls.contains v) "field-read-differs-from-declaration")
+      | some t => ({ e with regs := (r + 1, t) :: (r, t) :: e.regs }, bad (e.declOk v) "field-read-differs-from-declaration")
       | none => (e, [s!"pos{pos}:field-index-not-in-struct-type"])
     | _ => (e, [s!"pos{pos}:field-read-of-non-struct"])
   | .exprOp _ l r reg =>
@@ -61,7 +66,7 @@ def typedStep (funcs : List (Name × Func)) (consts : List (Name × ConstSem)) (
     ({ e with decls := v :: e.decls }, bad (operandOk e x) "initialiser-operand-type" ++ bad (v.ty == x.ty) "let-type-differs-from-initialiser")
   | .binding v x =>
     (e, bad (operandOk e x) "assigned-operand-type" ++ bad (v.ty == x.ty) "assignment-type" ++ bad v.mutable "assignment-to-immutable" ++
-        bad (e.decls.contains v) "assignment-differs-from-declaration")
+        bad (e.declOk v) "assignment-differs-from-declaration")
   | .condExpr l r _ reg =>
     ({ e with regs := (reg, .prim .bool) :: e.regs },
      bad (operandOk e l) "left-side-type" ++ bad (operandOk e r) "right-side-type" ++ bad (l.ty == r.ty) "comparison-sides-differ" ++
